@@ -560,9 +560,6 @@ pub use tb2::*;
 //@     }
 //@end
 
-// T12. slice::sort permutes its argument (that the result is ordered is not needed here)
-pub assume_specification<T: Ord>[ <[T]>::sort ](s: &mut [T])
-    ensures final(s)@.to_multiset() == old(s)@.to_multiset();
 // T13. slice::to_vec copies the elements (Clone of the syntax-tree types is structural, D1)
 pub assume_specification<T: Clone>[ <[T]>::to_vec ](s: &[T]) -> (r: Vec<T>)
     ensures r@ == s@;
